@@ -164,6 +164,8 @@ impl RollState {
     }
 
     fn age_rotation_necessary(age: Age, created_at: &DateTime<Local>) -> bool {
+        #[cfg(feature = "verif_hooks")]
+        use crate::verif_hooks::Local;
         let now = Local::now();
         match age {
             Age::Day => {
@@ -446,6 +448,8 @@ impl State {
 
     pub fn flush(&mut self) -> std::io::Result<()> {
         if let Inner::Active(_, ref mut file, _) = self.inner {
+            #[cfg(feature = "verif_hooks")]
+            crate::verif_hooks::point("flush", None, None)?;
             file.flush()
         } else {
             Ok(())
@@ -457,6 +461,8 @@ impl State {
         &mut self,
         force: bool,
     ) -> Result<(), FlexiLoggerError> {
+        #[cfg(feature = "verif_hooks")]
+        use crate::verif_hooks::Local;
         if let Inner::Active(
             Some(ref mut rotation_state),
             ref mut current_write,
@@ -528,6 +534,8 @@ impl State {
             });
 
         if let Inner::Active(ref mut o_rotation_state, ref mut log_file, ref _path) = self.inner {
+            #[cfg(feature = "verif_hooks")]
+            crate::verif_hooks::point("write", Some(_path), None)?;
             log_file.write_all(buf)?;
 
             if let Some(ref mut rotation_state) = o_rotation_state {
@@ -539,6 +547,8 @@ impl State {
 
     pub fn reopen_outputfile(&mut self) -> Result<(), std::io::Error> {
         if let Inner::Active(_, ref mut file, ref p_path) = self.inner {
+            #[cfg(feature = "verif_hooks")]
+            crate::verif_hooks::point("reopen", Some(p_path), None)?;
             match OpenOptions::new().create(true).append(true).open(p_path) {
                 Ok(f) => {
                     // proved to work on standard windows, linux, mac
@@ -657,6 +667,8 @@ fn open_log_file(
         self::platform::create_symlink_if_possible(link, &path);
     }
 
+    #[cfg(feature = "verif_hooks")]
+    crate::verif_hooks::point("open", Some(&path), None)?;
     let logfile = OpenOptions::new()
         .write(true)
         .create(true)
@@ -673,6 +685,10 @@ fn open_log_file(
 }
 
 fn get_creation_timestamp(path: &Path) -> DateTime<Local> {
+    #[cfg(feature = "verif_hooks")]
+    if let Some(ts) = crate::verif_hooks::creation_time(path) {
+        return ts;
+    }
     // On windows, we know that try_get_creation_date() returns a result, but it is wrong.
     if cfg!(target_os = "windows") {
         get_current_timestamp()
@@ -693,6 +709,8 @@ fn try_get_modification_timestamp(path: &Path) -> Result<DateTime<Local>, FlexiL
     Ok(d.into())
 }
 fn get_current_timestamp() -> DateTime<Local> {
+    #[cfg(feature = "verif_hooks")]
+    use crate::verif_hooks::Local;
     Local::now()
 }
 
@@ -712,6 +730,8 @@ pub(super) fn start_async_fs_writer(
                     match receiver.recv() {
                         Err(_) => break,
                         Ok(mut message) => {
+                            #[cfg(feature = "verif_hooks")]
+                            crate::verif_hooks::sched("async_recv");
                             let mut state = am_state.lock().unwrap(/* ok */);
                             match message.as_ref() {
                                 ASYNC_FLUSH => {
@@ -749,6 +769,8 @@ pub(super) fn start_sync_flusher(am_state: Arc<Mutex<State>>, flush_interval: st
         let (_tx, rx) = std::sync::mpsc::channel::<()>();
             loop {
                 rx.recv_timeout(flush_interval).ok();
+                #[cfg(feature = "verif_hooks")]
+                crate::verif_hooks::sched("flusher_tick");
                 (*am_state).lock().map_or_else(
                     |_e| (),
                     |mut state| {
@@ -777,6 +799,8 @@ pub(crate) fn start_async_fs_flusher(
                     eprint_msg(ErrorCode::Flush, "Flushing unexpectedly stopped working");
                     break;
                 }
+                #[cfg(feature = "verif_hooks")]
+                crate::verif_hooks::sched("flusher_tick");
 
                 async_writer.send(ASYNC_FLUSH.to_vec()).ok();
             }
@@ -797,12 +821,16 @@ mod platform {
     fn unix_create_symlink(link: &Path, logfile: &Path) {
         if std::fs::symlink_metadata(link).is_ok() {
             // remove old symlink before creating a new one
+            #[cfg(feature = "verif_hooks")]
+            crate::verif_hooks::point("symlink_remove", Some(link), None).ok();
             if let Err(e) = std::fs::remove_file(link) {
                 eprint_err(ErrorCode::Symlink, "cannot delete symlink to log file", &e);
             }
         }
 
         // create new symlink
+        #[cfg(feature = "verif_hooks")]
+        crate::verif_hooks::point("symlink_create", Some(link), Some(logfile)).ok();
         if let Err(e) = std::os::unix::fs::symlink(logfile, link) {
             eprint_err(ErrorCode::Symlink, "cannot create symlink to logfile", &e);
         }
